@@ -804,7 +804,10 @@ def process_template(unit, tpl_path=None, canary=False):
                     it = find_item(src, sub, 'fn', name, path + ' ' + imp.name)
                     spec = FnSpec(name)
                     i = parse_fn_directives(lines, i + 1, spec)
-                    owner = re.sub(r'^impl(<.*?>)?\s*', '', header).split('<')[0].split(' where')[0].strip()
+                    owner = re.sub(r'^impl(<.*?>)?\s*', '', header)
+                    if ' for ' in owner:
+                        owner = owner.split(' for ', 1)[1]
+                    owner = owner.split('<')[0].split(' where')[0].strip()
                     emit_fn(path, owner, src[it.s:it.e], spec, assoc_types)
                     continue
                 if s2.startswith('//@assoc '):
